@@ -8,7 +8,7 @@ from . import spec
 from .common import guarded
 
 OPS_BY_PROP = {
-    'C05': ['new', 'iter', 'copy', 'getslice', 'getbit', 'setslice', 'add', 'pad'],
+    'C05': ['new', 'iter', 'copy', 'getslice', 'getbit', 'setslice', 'setbit', 'add', 'pad'],
     'C06': ['shift', 'and', 'or', 'xor', 'invert', 'value', 'chunks'],
     'C13': ['eq', 'hash', 'eqbytes', 'hashset'],
 }
@@ -33,6 +33,7 @@ def tok_bits(tok):
 def show(b):
     from microschc.binary.buffer import Padding
     side = 'L' if b.padding is Padding.LEFT else 'R' if b.padding is Padding.RIGHT else f'?{b.padding!r}'
+    if len(b) != b.length: return f"len()={len(b)}-but-length={b.length}"
     return f"{b.content.hex() or '-'}:{b.length}:{side}:{b.padding_length}"
 
 def mk(tok):
@@ -66,6 +67,8 @@ def impl(line: str) -> str:
             return show(mk(a[0])[int(a[1])])
         if op == 'setslice':
             b = mk(a[0]); b[int(a[1]):int(a[2])] = mk(a[3]); return show(b)
+        if op == 'setbit':
+            b = mk(a[0]); b[int(a[1])] = mk(a[2]); return show(b)
         if op == 'add':
             x, y = mk(a[0]), mk(a[1]); r = x + y
             if r is x or r is y: return 'alias:a + b returned one of its operands (not a new Buffer)'
@@ -179,6 +182,9 @@ def oracle(line: str, out: str):
     elif op == 'setslice':
         b, s = tok_bits(a[0]); vb, _ = tok_bits(a[3])
         bad('C05', _canon(r[0], b[:int(a[1])] + vb + b[int(a[2]):], s))
+    elif op == 'setbit':
+        b, s = tok_bits(a[0]); vb, _ = tok_bits(a[2]); i = int(a[1])
+        bad('C05', _canon(r[0], b[:i] + vb + b[i + 1:], s))
     elif op == 'add':
         x, sx = tok_bits(a[0]); y, _ = tok_bits(a[1])
         bad('C05', _canon(r[0], x + y, sx)); m = _same(r[1], a[0]) + _same(r[2], a[1]); bad('C05', m); bad('C16', m)
@@ -354,6 +360,22 @@ def gen(props, tier, rng):
         for _ in range(R):
             x = rng.choice(longs); n = len(x[0]); i = rng.randrange(n + 1); j = rng.randrange(i, n + 1)
             yield f'buf setslice {E(x)} {i} {j} {E(rng.choice(longs + vals))}'
+
+    if 'setbit' in ops:
+        # `b[i] = v` with an integer index: the bit at i is replaced by the whole of v (a slice of width one)
+        vals = [(b, s) for b in all_bits(3) for s in 'LR']
+        for x in [(b, s) for b in all_bits(5) for s in 'LR']:
+            for i in range(len(x[0])):
+                for v in vals:
+                    yield f'buf setbit {E(x)} {i} {E(v)}'
+        for _ in range(R):
+            x = rng.choice([l for l in longs if len(l[0]) > 0]); i = rng.randrange(len(x[0]))
+            yield f'buf setbit {E(x)} {i} {E(rng.choice(longs + vals))}'
+
+def model_line(line):
+    t = line.split()
+    if t[1] == 'setbit': return f'buf setslice {t[2]} {t[3]} {int(t[3]) + 1} {t[4]}'
+    return line
 
 def evaluate(line):
     out = impl(line)
